@@ -271,6 +271,10 @@ uint64_t progress_count();
 void watchdog_start(const WatchdogCfg& cfg, HangFn on_hang);
 void watchdog_pause(bool paused);      // e.g. during long single operations that are known to be slow
 void watchdog_stop();
+// true iff every listed OS thread of this process is in state S/D and was not scheduled between two samples taken gap_us apart (state,
+// run time and time-slice count from /proc/self/task/<tid>/{stat,schedstat}): such a thread is blocked in the kernel and nobody has woken
+// it. A logical fact that a loaded or slow machine cannot distort - use it instead of "nothing moved for a while" heuristics.
+bool threads_asleep_stable(const std::vector<int>& tids, unsigned gap_us = 300);
 void suspend_gate(const std::atomic<bool>* stop = nullptr);   // background helpers (keeper) block here, without timeouts, while the watchdog is deciding (or until *stop)
 void gate_wake();                      // call after setting the stop flag of a helper that may be parked in suspend_gate()
 
@@ -495,6 +499,24 @@ static std::vector<TaskSample> sample_tasks() {
     }
     closedir(d);
     return v;
+}
+static bool sample_one(int tid, TaskSample& s) {
+    s = TaskSample{ tid, '?', 0, 0 };
+    char path[96], buf[512];
+    snprintf(path, sizeof path, "/proc/self/task/%d/stat", tid);
+    FILE* f = fopen(path, "r"); if (!f) return false;
+    size_t n = fread(buf, 1, sizeof buf - 1, f); fclose(f); buf[n] = 0;
+    if (char* rp = strrchr(buf, ')')) if (rp[1] == ' ') s.state = rp[2];
+    snprintf(path, sizeof path, "/proc/self/task/%d/schedstat", tid);
+    if (FILE* g = fopen(path, "r")) { unsigned long long a = 0, b = 0, c = 0; if (fscanf(g, "%llu %llu %llu", &a, &b, &c) >= 3) { s.run_ns = a; s.slices = c; } fclose(g); }
+    return s.state != '?';
+}
+bool threads_asleep_stable(const std::vector<int>& tids, unsigned gap_us) {
+    std::vector<TaskSample> a(tids.size()), b(tids.size());
+    for (size_t i = 0; i < tids.size(); i++) if (!sample_one(tids[i], a[i]) || !(a[i].state == 'S' || a[i].state == 'D')) return false;
+    sleep_us(gap_us);
+    for (size_t i = 0; i < tids.size(); i++) if (!sample_one(tids[i], b[i]) || !(b[i].state == 'S' || b[i].state == 'D') || b[i].run_ns != a[i].run_ns || b[i].slices != a[i].slices) return false;
+    return true;
 }
 static std::string describe_threads(const std::vector<TaskSample>& ts) {
     std::ostringstream o;
